@@ -46,6 +46,7 @@ class Alphabet:
             "P6": (None, "m", {"a": x}, {"v": 1}),
             "P7": (t[2], "n", {"a": x + "\n" + y}, {"v": -1.5}),
             "P8": (t[2], "m", {"b": y}, {"v": 2.5, "w": 3}),
+            "PU": (t[1] + _dt.timedelta(microseconds=1), "m", {"a": y}, {"v": 2}),      # one microsecond after P1 / P2
             "PF": (_dt.datetime(2030, 1, 2, tzinfo=UTC), "m", {"a": x}, {"v": 1}),   # later than the virtual clock (2030-01-01)
             "P9": (t[2], "m", {}, {"v": 7}),                      # a second tag-less point (P4 has no tags either)
         }
@@ -115,6 +116,8 @@ class Alphabet:
             ("cmp", "time", (), "<=", self.tmid),
             ("cmp", "time", (), ">", self.tmid),
             ("cmp", "time", (), "==", self.tmid),
+            ("cmp", "time", (), "==", t[1] + _dt.timedelta(microseconds=1)),
+            ("cmp", "time", (), "<", t[1] + _dt.timedelta(microseconds=1)),
             ("cmp", "time", (), "<=", t[2]),
             # same instant as t2, expressed in a non-UTC zone
             ("cmp", "time", (), ">=", t[2].astimezone(_dt.timezone(_dt.timedelta(hours=5, minutes=45)))),
